@@ -48,6 +48,10 @@ static void obs_add(obs_cfg *o, const char *g, const char *k, const char *v)
   o->n++;
 }
 
+/* obs_lenient: a listed key that the value getter does not find is recorded without value instead of being an inconsistency
+ * (for checks whose property is not about listing/getter agreement, e.g. C04 on arbitrary bytes: the header [[]] creates a
+ * section literally named "[]", which as a getter argument means group-less) */
+static int obs_lenient; static uint64_t obs_unfetchable;
 /* Take the listing of kf: group-less keys first, then every listed group in listing order.
  * Returns 0, or -1 after reporting an API inconsistency into err. */
 static int obs_take(econf_file *kf, obs_cfg *o, sbuf *err)
@@ -72,6 +76,7 @@ static int obs_take(econf_file *kf, obs_cfg *o, sbuf *err)
       char *v = NULL;
       econf_err r2; DL(r2 = econf_getStringValue(kf, g, keys[ki], &v));
       DUMP_COUNT(1);
+      if (r2 != ECONF_SUCCESS && obs_lenient) { obs_unfetchable++; obs_add(o, g, keys[ki], NULL); continue; }
       if (r2 != ECONF_SUCCESS) {
         sb_printf(err, "listed key [%s] %s: econf_getStringValue returned %d", g ? g : "", keys[ki], (int)r2);
         DL(econf_freeArray(keys)); DL(econf_freeArray(groups)); return -1;
